@@ -56,6 +56,10 @@ CHECKS = {
   "text": "Seeded search over stacks (depth 1-4) x fault plans over every user-code call site (callable, map / error / flat-map function, poll function at call k, cancel function, should_retry / sleep_time at attempt k, throttle count callable at call k, done-callback) x concurrent cancels (also placed around the policy evaluation by semantic triggers) x schedules; plus a directed family hammering a RetryExecutor whose policy retries results. Oracles: no library-created thread ends with an exception, nothing but scripted outcomes escapes from cancel / add_done_callback / result / submit, untargeted futures still match the sequential reference, and a fault-free probe submission is served afterwards within its model bound.",
   "note": "Runs in which the poll function raised are exempt from the outcome comparison (the set of futures it was shown is schedule-dependent; C08 judges it).",
   "design": "10 (C18)"},
+ "C20": {
+  "text": "Seeded search over named stacks and histories mixing completion, failure, cancel while queued / between retries / in flight, a firing timeout layer, poll-function errors and an optional final shutdown x schedules, with a stub prometheus_client that records value and running minimum per label set. At quiescence: future_inprogress, retry_queue, throttle_queue are 0 when everything is terminal; exec_inprogress equals executors built minus shut down; no gauge ever negative; future_total / future_cancel / future_error of the top-level type, retry_total (delegate re-submissions seen by a submit tap), poll_total and poll_error equal the history's counts.",
+  "note": "prometheus_client is absent from the sandbox: the stub implements Counter/Gauge labels().inc()/dec() only; *_time sums only checked >= 0; inner-layer counters are checked where the history determines them.",
+  "design": "10 (C20)"},
 }
 def main():
     checks = []
